@@ -12,6 +12,44 @@ SAN = {"ASAN_OPTIONS": "abort_on_error=1:detect_leaks=0:allocator_may_return_nul
 def tool_path(variant):
     return os.path.join(check.BUILD_ROOT, variant, "Tasgrid", "tasgrid")
 
+def memcheck_sample(res, seed):
+    """A fixed script of tasgrid invocations on the plain build under valgrind memcheck: the compiler sanitizers of the asan variant do not see reads of
+    uninitialised memory (MemorySanitizer would need an instrumented libstdc++), e.g. an option flag of the wrapper that no constructor sets."""
+    import subprocess, shutil, tempfile, math, re, json
+    if not shutil.which("valgrind"): res.counters["memcheck:skipped-no-valgrind"] = 1; return
+    check.build("plain")
+    tool = tool_path("plain")
+    d = tempfile.mkdtemp(prefix="c16_memcheck_", dir=os.path.join(check.BUILD_ROOT, "tmp") if os.path.isdir(os.path.join(check.BUILD_ROOT, "tmp")) else None)
+    env = dict(os.environ); env["LD_LIBRARY_PATH"] = os.pathsep.join([os.path.join(check.BUILD_ROOT, "plain", "SparseGrids"), os.path.join(check.BUILD_ROOT, "plain", "DREAM")])
+    def run(i, args, vg=True):
+        cmd = (["valgrind", "-q", "--error-exitcode=99"] if vg else []) + [tool] + args
+        r = subprocess.run(cmd, cwd=d, env=env, stdout=subprocess.PIPE, stderr=subprocess.PIPE, text=True, timeout=600, errors="replace")
+        if vg:
+            res.counters["memcheck:invocations"] = res.counters.get("memcheck:invocations", 0) + 1
+            if r.returncode == 99 or "==ERROR" in r.stderr or re.search(r"^==\d+== (Conditional jump|Use of uninitialised|Invalid (read|write)|Syscall param)", r.stderr, re.M):
+                kind = re.search(r"^==\d+== (Conditional jump or move depends on uninitialised value|Use of uninitialised value|Invalid read|Invalid write|Syscall param[^\n]*)", r.stderr, re.M)
+                frame = re.search(r"(?:at|by) 0x[0-9A-F]+: ([^\n]*?) \((tsg[A-Za-z]+\.[ch]pp|tasgrid[A-Za-z_]*\.[ch]pp)", r.stderr)
+                key = "memcheck:%s:%s:%s" % ((kind.group(1) if kind else "error").replace(" ", "-")[:60], args[0].lstrip("-"), (frame.group(2) if frame else "?"))
+                res.violations.append(dict(index=1000000 + i, key=key, detail=json.dumps(dict(command=" ".join(["tasgrid"] + args), report=r.stderr[:1500])), descriptor=json.dumps(dict(memcheck_sample=i)), variant="plain"))
+        return r
+    try:
+        run(0, ["-makeglobal", "-dim", "1", "-out", "1", "-depth", "6", "-type", "level", "-onedim", "clenshaw-curtis", "-gridfile", "w.grid", "-ascii", "-of", "pts.txt"])
+        tok = open(os.path.join(d, "pts.txt")).read().split(); n = int(tok[0]); pts = [float(t) for t in tok[2:2 + n]]
+        open(os.path.join(d, "vals.txt"), "w").write("%d 1\n" % n + "\n".join("%.17g" % math.exp(-x * x) for x in pts) + "\n")
+        run(1, ["-loadvalues", "-gridfile", "w.grid", "-valsfile", "vals.txt", "-ascii"])
+        run(2, ["-makeexoquad", "-depth", "2", "-shift", "1.0", "-weightfile", "w.grid", "-description", "exo", "-of", "exo.tab"])
+        run(3, ["-makeexoquad", "-depth", "2", "-shift", "1.0", "-weightfile", "w.grid", "-description", "exo", "-symmetric", "-print"])
+        run(4, ["-makequadrature", "-dim", "2", "-depth", "3", "-type", "qptotal", "-onedim", "gauss-legendre", "-print"])
+        run(5, ["-makefourier", "-dim", "2", "-out", "1", "-depth", "2", "-type", "level", "-gridfile", "f.grid", "-of", "fp.txt", "-ascii"])
+        run(6, ["-summary", "-gridfile", "f.grid"])
+        run(7, ["-evaluate", "-gridfile", "w.grid", "-xf", "pts.txt", "-print"])
+        run(8, ["-integrate", "-gridfile", "w.grid", "-print"])
+    except Exception as e:
+        res.counters["memcheck:harness-error"] = 1
+        print("memcheck sample: %s" % e)
+    finally:
+        shutil.rmtree(d, ignore_errors=True)
+
 def check_fn(prop, cfg, tier, seed, ncases_override=None):
     t0 = time.time()
     variant = cfg["variant"]
@@ -24,6 +62,7 @@ def check_fn(prop, cfg, tier, seed, ncases_override=None):
     args = tuple(cfg.get("args", ())) + ("tasgrid=" + tool,)
     res = check.run_cases(prop, variant, n, tier, seed, timeout=cfg.get("timeout", 300), chunk=cfg.get("chunk", 5),
                           extra_args=args, extra_env=SAN)
+    memcheck_sample(res, seed)
     if not os.environ.get("VF_KEEP"):   # script directories survive only when tsgmon itself died inside a case
         import glob, shutil
         for d in glob.glob(os.path.join(check.BUILD_ROOT, "tmp", "c16_*")): shutil.rmtree(d, ignore_errors=True)
